@@ -38,7 +38,7 @@ PROPS = {
                 trusted=TRUSTED,
                 explanation="[P] U8c/d/e, F2; [E] F12 table; rejection of unbalanced parentheses is emergent and not decided",
                 witnesses=["c08_interface_end_name_mismatch", "c08_subroutine_end_name_mismatch", "c08_labelled_do_end_name_mismatch"]),
-    "C15": dict(level="other", enum=["enum_sentinels.py"],
+    "C15": dict(level="other", enum=["enum_sentinels.py", "bounded_layout.py --only C15"],
                 claim="replace_omp_sentinels proved to overwrite exactly the two sentinel characters with blanks (length and every other column "
                       "unchanged); get_single_line proved to apply it to the normalised line before the line is stored or seen by anyone "
                       "(fixed form, option on); the three sentinel patterns enumerated against the column rules",
@@ -61,12 +61,12 @@ PROPS = {
                       "consumed item in content order",
                 trusted=TRUSTED,
                 explanation="[P] U3b, R20, U5 get_root, U8f; _set_parent / walk not yet under contract (bounded tree catalogue in C18)"),
-    "C11": dict(level="other",
+    "C11": dict(level="other", enum=["bounded_layout.py --only C11"],
                 claim="comment handling contracts: Comment.__new__ consumes exactly one comment item or restores the reader, Comment/Directive.init keep "
                       "the comment text and item, BlockBase.match restores every consumed item on failure and keeps content in item order",
                 trusted=TRUSTED,
                 explanation="[P] F4, U8b/f; reader-side comment creation (handle_inline_comment, continuation loop) bounded / not yet under contract"),
-    "C12": dict(level="other",
+    "C12": dict(level="other", enum=["bounded_layout.py --only C12"],
                 claim="put-back half proved: physical-line stack (put/get_single_line, get_next_line keep the count invariant), item queue (put_item "
                       "prepends to the innermost reader), rule calls that report no match leave the item stream unchanged (Base.__new__, Comment, "
                       "BlockBase.match); cpp-directive items carry the exact span of the lines taken",
@@ -97,4 +97,17 @@ PROPS = {
                 trusted="reference precedence parser spec/reference.py written from the standard; bounded expression depth",
                 explanation="[E] F7 table; [B] Expr vs reference; BinaryOpBase.match / Pattern.rsplit not yet under contract",
                 witnesses=["c03_defined_binary_op_then_dotted_operator"]),
+    "C04": dict(level="other", enum=["bounded_layout.py --only C04,C12"],
+                claim="label and construct-name extraction and the quote-aware tokenisers are proved; the free-form continuation logic is decided by a "
+                      "bounded layout-independence check (every continuation point, leading-& choice, comment/blank insertion, ';' joins over 8 statements)",
+                trusted=TRUSTED + "; bounded layout space",
+                explanation="[P] R3, R4, S1, S2; [B] layouts (bounded_layout.py); get_source_item free branch and handle_inline_comment not yet proved",
+                witnesses=["c04_ampersand_inside_continued_literal"]),
+    "C05": dict(level="other", enum=["bounded_layout.py --only C05"],
+                claim="the fixed-form column predicates (_is_fix_cont, _is_fix_comment) and line normalisation are proved; detection and the fixed-form "
+                      "reader branch are decided by a bounded check over fixed renderings (continuation mark, comment style, cut position); three "
+                      "classes of sources are mis-detected (known findings)",
+                trusted=TRUSTED + "; bounded rendering space",
+                explanation="[P] R1, R2, R7; [B] detection + fixed branch",
+                witnesses=["c05_fixed_comment_with_ampersand", "c05_labelled_first_statement", "c05_first_statement_starting_with_c"]),
 }
